@@ -138,13 +138,37 @@ b_op_ab = _make_op('ab')
 b_op_ba = _make_op('ba')
 
 
+def b_typed(tok, n, label='a'):
+    return [n, label]
+
+
+TYPED_SCHEMA = {
+    'type': 'object',
+    'properties': {'tok': {'type': 'string'}, 'n': {'type': 'integer'}, 'label': {'type': 'string', 'enum': ['a', 'b']}},
+    'required': ['tok', 'n'],
+}
+
+
+def typed_valid(arguments):
+    """Reference reading of TYPED_SCHEMA, written independently of the jsonschema package."""
+    n = arguments.get('n')
+    if not isinstance(arguments.get('tok'), str) or isinstance(n, bool) or not isinstance(n, int):
+        return False
+    if 'label' in arguments and arguments['label'] not in ('a', 'b'):
+        return False
+    return True
+
+
+VALIDATED = {'typed': (TYPED_SCHEMA, typed_valid)}
+
+
 def b_ctx_echo(ctx, tok, value=None):
     return value
 
 
 BODIES: Dict[str, Callable[..., Any]] = {
     'echo': b_echo, 'add': b_add, 'none': b_none, 'pair': b_pair,
-    'fail_proto': b_fail_proto, 'fail_exc': b_fail_exc, 'slow': b_slow, 'op_ab': b_op_ab, 'op_ba': b_op_ba,
+    'fail_proto': b_fail_proto, 'fail_exc': b_fail_exc, 'slow': b_slow, 'op_ab': b_op_ab, 'op_ba': b_op_ba, 'typed': b_typed,
 }
 SIGNATURES: Dict[str, inspect.Signature] = {name: inspect.signature(fn) for name, fn in BODIES.items()}
 
@@ -262,7 +286,12 @@ class Service:
     def registry(self, names: Optional[List[str]] = None) -> pjrpc.server.MethodRegistry:
         reg = pjrpc.server.MethodRegistry()
         for name in (names or sorted(self.methods)):
-            reg.add(self.methods[name], name=name)
+            method = self.methods[name]
+            if name in VALIDATED:
+                # a schema validator attached the way users do it: validator.validate(method, schema=...)
+                import pjrpc.server.validators.jsonschema as vjs
+                method = vjs.JsonSchemaValidator().validate(method, schema=VALIDATED[name][0])
+            reg.add(method, name=name)
         return reg
 
     def executions(self) -> List[Tuple[str, Any]]:
